@@ -124,6 +124,49 @@ def run(ctx):  # noqa: C901, PLR0912, PLR0915
     ctx.ob('C16.R1', 'service without scopes', ok and n_sc >= 1,
            'a service without scopes is skipped before its scope list is read', fi=sm or repo.method(LOC, 'filter_services_inside'))
 
+    # the filter keeps a service iff ONE of its scopes lies inside the location - every scope is looked at
+    from engine.boolform import equivalent, function_formula, mk
+
+    def _loc_helper(name):
+        f = repo.resolve_method(LOC, name)
+        return f.node if f is not None and name == '_service_matches' else None
+    pred = repo.resolve_method(LOC, '_service_matches')
+    got = None
+    if pred is not None:
+        got = function_formula(pred.node)
+        svc = pred.node.args.args[1].arg
+        where = pred
+    else:
+        # merged into filter_services_inside: [s for s in services if COND] or a loop with `if COND: append`
+        fsi = repo.method(LOC, 'filter_services_inside')
+        where = fsi
+        for n in walk_no_nested(fsi.node):
+            if isinstance(n, ast.ListComp) and len(n.generators) == 1 and len(n.generators[0].ifs) == 1 and \
+                    isinstance(n.generators[0].target, ast.Name):
+                from engine.boolform import expr_formula
+                got, svc = expr_formula(n.generators[0].ifs[0]), n.generators[0].target.id
+            if isinstance(n, ast.For) and isinstance(n.target, ast.Name) and len(n.body) == 1 and isinstance(n.body[0], ast.If) \
+                    and not n.body[0].orelse:
+                from engine.boolform import expr_formula
+                got, svc = expr_formula(n.body[0].test), n.target.id
+    if got is None:
+        raise AnalysisError('C16.R1: the predicate of filter_services_inside is neither _service_matches nor a recognisable filter')
+    want = mk('and', [('not', ('atom', f'{svc}.scopes is None')),
+                      ('exists', f'{svc}.scopes.text', ('atom', 'self._scope_string_matches($0)'))])
+    same, counter = equivalent(got, want)
+    ctx.ob('C16.R1', 'any scope inside', same,
+           'a service is kept iff it has scopes and at least one of them lies inside the location' if same else
+           f'the service filter is {got}; required: the service has scopes and SOME scope of it matches (every scope is '
+           f'examined) - a valid location scope behind another scope is never looked at', fi=where, witness=repr(got)[:300])
+    # parsing / formatting a location is not memoised: from_scope_string returns a NEW SdcLocation on every call (a cached
+    # instance would be shared by all callers; editing one parse result changes what the next parse of that string returns)
+    cached = [f'{m}: @{unparse(d)}' for m, f in repo.cls(LOC).methods.items() for d in f.node.decorator_list
+              if any(x in unparse(d) for x in ('cache', 'memo'))]
+    ctx.ob('C16.R1', 'no memoised location objects', not cached,
+           'no method of SdcLocation is cached: every parse builds a new object' if not cached else
+           f'{cached}: the cached SdcLocation object is handed to every caller; a caller that edits the result of one parse '
+           f'changes the result of every later parse of the same scope string', where=LOC, witness=cached)
+
     # ------------------------------------------------------------------ R2
     ue, _ = repo.class_attr(LOC, 'url_elements')
     if not isinstance(ue, ast.Tuple):
